@@ -306,6 +306,11 @@ theorem updatePeerInfo_WI (env : CryptoEnv) (o : Oracle) (c : Ctx) (now : Int) (
       refine h.insertPeer a _ ?_ _
       exact hx
 
+theorem WI.of_fields {c c' : Ctx} (h : WI S c) (h1 : c'.node.cfg = c.node.cfg) (h2 : c'.node.pending = c.node.pending)
+    (h3 : c'.node.peers = c.node.peers) (h4 : c'.outs = c.outs) (h5 : c'.log = c.log) : WI S c' :=
+  ⟨h1.trans h.cfg, fun a pc hm => h.pend a pc (h2 ▸ hm), fun a p hm => h.peers a p (h3 ▸ hm),
+   fun x hx => by rw [h5]; exact h.outs x (h4 ▸ hx), fun hN => by rw [h3]; exact h.ndp hN, fun hN => by rw [h2]; exact h.ndq hN⟩
+
 theorem addNewPeer_WI (env : CryptoEnv) (o : Oracle) (c : Ctx) (now : Int) (a : NAddr) (info : NodeInfo) (h : WI S c) :
     WI S (addNewPeer env o c now a info) := by
   unfold addNewPeer
@@ -313,6 +318,7 @@ theorem addNewPeer_WI (env : CryptoEnv) (o : Oracle) (c : Ctx) (now : Int) (a : 
   split
   · exact h
   · rename_i pc hpc
+    refine WI.of_fields (c := updatePeerInfo env o _ now a (some info)) ?_ rfl rfl rfl rfl rfl
     apply updatePeerInfo_WI
     refine ⟨h.cfg, fun b q hb => h.pend b q (mem_eraseA hb).1, ?_, h.outs, fun hN => nodup_insertA _ _ _ (h.ndp hN),
       fun hN => nodup_eraseA _ _ (h.ndq hN)⟩
